@@ -61,6 +61,10 @@ fn record(msg: String) {
 /// the corrupted structure (e.g. `while len > cap { remove_lru() }` with an unremovable entry).
 pub struct HazardAbort;
 
+pub(crate) fn spin_abort() {
+    abort_execution()
+}
+
 fn abort_execution() {
     if !std::thread::panicking() {
         std::panic::panic_any(HazardAbort);
@@ -166,6 +170,8 @@ pub mod fault {
 
     /// Payload of an injected panic (so it can be told apart from a library panic).
     pub struct Injected(pub FK, pub u32);
+    /// calls of one kind of user code inside one counted operation after which the operation is taken to spin
+    pub const SPIN_LIMIT: u32 = 1 << 26;
 
     thread_local! {
         static COUNTING: Cell<bool> = const { Cell::new(false) };
@@ -195,10 +201,24 @@ pub mod fault {
         let idx = COUNTS.with(|c| {
             let mut v = c.get();
             let i = v[kind as usize];
-            v[kind as usize] += 1;
+            v[kind as usize] = i.saturating_add(1);
             c.set(v);
             i
         });
+        if idx >= SPIN_LIMIT {
+            // No operation of a fault-pass configuration (a handful of entries) makes 2^26 calls into
+            // user code: the library is looping on a structure it cannot make progress on (e.g.
+            // `while len > cap { remove_lru() }` with an entry that is on the list but not in the index).
+            // Recorded once, then the execution is unwound so that the run terminates.
+            if idx == SPIN_LIMIT {
+                super::report(format!(
+                    "operation does not return: more than 2^26 calls of user code ({:?}) inside one operation - the library loops on a structure it cannot make progress on",
+                    kind
+                ));
+            }
+            super::spin_abort();
+            return;
+        }
         if let Some((k, i)) = ARMED.with(|a| a.get()) {
             if k == kind && i == idx {
                 if matches!(kind, FK::DropK | FK::DropV) && std::thread::panicking() {
